@@ -135,5 +135,5 @@ func ruleBlockStateInitialised(w *World, r *Report) {
 			}
 		}
 	}
-	r.Expect("(block parser, context key) pairs read in Continue/Close", n, 4)
+	r.Expect("(block parser, context key) pairs read in Continue/Close", n, 2)
 }
